@@ -22,7 +22,8 @@ K = "kernels::"
 GROUPS = {
     "c01": ([K + "c01_unary_composition_order"], []),
     "c09": ([K + "c09_check_partial_index"], []),
-    "c13": ([K + "c13_sign_rule", K + "c13_is_numeric_text"], []),
+    "c13": ([K + "c13_sign_rule", K + "c13_is_numeric_text", K + "c06_next_char_boundary"], [K + "c13_is_numeric_text_utf8"]),
+    "c06": ([K + "c06_next_char_boundary", K + "c13_is_numeric_text"], [K + "c13_is_numeric_text_utf8"]),
     "c14": ([K + "c14_word_tracker_step", K + "c14_eval_binary_all_orders_7_word", K + "c14_eval_binary_all_orders_7_slice"],
             [K + "c14_slice_tracker_step_2w", K + "c14_slice_tracker_step_3w", K + "c14_eval_binary_all_orders_9_word"]),
     # 3 nodes run CBMC out of memory (25 GB) on this image: 2 nodes, thorough tier only; clone counts and all larger
@@ -371,6 +372,8 @@ def functions_of(hs):
             out.append("parser::is_operator_binary")
         elif b.startswith("c13_is_numeric"):
             out.append("parser::is_numeric_text")
+        elif b.startswith("c06_next"):
+            out.append("parser::next_char_boundary")
         elif b.startswith("c09"):
             out.append("partial::check_partial_index")
         elif b.startswith("c15"):
